@@ -62,6 +62,9 @@ def inf_rule(ctx, rule="C08.inf"):
 def run(ctx):
     repo = ctx.repo
     inf_rule(ctx)
+    from ..report import reuse as _reuse
+    from . import c11 as _c11
+    _reuse(ctx, _c11.run, ("C11.cut",), "C08cut", "cut-point rule shared with C11: a checkpoint taken before the iteration's ratio is recorded makes a resumed run drop that step from the evidence")
     S = repo.cls("aspire.samples:SMCSamples")
     N = T.app("len", self_attr("x"))
     # ---- identities
